@@ -152,6 +152,12 @@ def run(case):
         assert out["lab"] == _lines(via_write("write_lab"))
         out["uem"] = _lines(t.to_uem)
         assert out["uem"] == _lines(via_write("write_uem"))
+        # one line per segment, however the timeline was constructed: repeated segments in the constructor input
+        from pyannote.core import Timeline as _TL
+        _segs = list(t)
+        _dup = _TL(_segs[::-1] + _segs[:2] + _segs, uri=t.uri)
+        assert _dup == t and len(_dup) == len(t), "a timeline built from repeated segments differs from the plain one"
+        assert _lines(_dup.to_uem) == out["uem"], "to_uem prints repeated constructor input more than once"
         out["strs"] = [str(tb.S(x[0])) for x in case["a"]]
         out["strs_ms"] = [_parse_seg_str(x) for x in out["strs"]]
         return out
